@@ -86,7 +86,7 @@ def check_anchor(c, anchor, site, ctx):
         return fn()
     if t == "guard":
         # the site is dominated by the given edge of a comparison with this canonical rendering
-        f = c.fn(ctx["fnp"][site.fn])
+        f = c.fn(site.path)
         b = Body(f)
         want = anchor["cmp"]
         for bi, blk in enumerate(b.blocks):
@@ -108,7 +108,7 @@ def check_anchor(c, anchor, site, ctx):
                         return True, "dominated by the %s edge of `%s`" % (truth, want)
         return False, "no dominating %s edge of `%s` found" % (anchor["truth"], want)
     if t == "dominating-ok-call":
-        f = c.fn(ctx["fnp"][site.fn])
+        f = c.fn(site.path)
         b = Body(f)
         for bi, blk in enumerate(b.blocks):
             tt = blk["term"]
@@ -138,7 +138,7 @@ def check_anchor(c, anchor, site, ctx):
         # the numeric part (start <= end <= len) of a str range index is proved by the value analysis; the reviewed
         # argument only covers the char-boundary condition
         an = analysis(c)
-        it = an.interp(ctx["fnp"][site.fn])
+        it = an.interp(site.path)
         st = it.state_before_term(site.bb) if it else None
         r = ledger.discharge(site, it, st, allow_str=True) if st is not None else None
         if r:
@@ -146,7 +146,7 @@ def check_anchor(c, anchor, site, ctx):
         return False, "numeric bounds start <= end <= len are no longer provable"
     if t == "fn-calls":
         # the enclosing function (or a named one) contains a call to `callee`
-        path = ctx["fnp"][site.fn] if "fn" not in anchor else [f["path"] for f in c.fns if S.fn_display(f).endswith(anchor["fn"])][0]
+        path = site.path if "fn" not in anchor else [f["path"] for f in c.fns if S.fn_display(f).endswith(anchor["fn"])][0]
         base = path.split("::{closure")[0]
         for pth in [p for p in g.edges if p == base or p.startswith(base + "::{closure")]:
             for (cp, bi, tt) in g.callees(pth):
@@ -185,17 +185,17 @@ def ledger_obligations(rep, c, prop, want, kinds=("assert", "call"), rules=None,
         if s.kind == "alloc":
             cls, bound, detail = r if r else ("UNBOUNDED", None, "function could not be analysed")
             if cls == "UNBOUNDED":
-                f0 = c.fn(fnp[s.fn])
+                f0 = c.fn(s.path)
                 if f0 is not None:
                     # size comes from a parameter of a public function: bounded if every in-crate caller passes a bounded value
                     acw = analysis_closed(c)
-                    it2 = acw.interp(fnp[s.fn])
+                    it2 = acw.interp(s.path)
                     st2 = it2.state_before_term(s.bb) if it2 else None
                     if st2 is not None:
                         r2 = ledger.classify_alloc(s, it2, st2)
                         if r2[0] in ("CONST", "TYPE", "LEN"):
                             cls, bound, detail = "PARAM", r2[1], "caller-supplied size; every in-crate call site passes a bounded value: " + r2[2]
-                if cls == "UNBOUNDED" and fnp[s.fn] not in reachable_fns(c):
+                if cls == "UNBOUNDED" and s.path not in reachable_fns(c):
                     cls, detail = "UNREACHABLE", "function is not reachable from any public entry point (dead code): " + detail
             ok = cls in ("CONST", "TYPE", "LEN", "PARAM", "UNREACHABLE")
             rule = "E3:" + cls
